@@ -158,6 +158,105 @@ def promotion_table():
     return rows
 
 
+def operator_routing():
+    """Which implementation does each operator / reflected operator enter, for each operand-kind pair?
+
+    Spies replace the registry values and the numpoly.* attributes bound to them (and poly_divide & co.) while
+    every operator is applied once per operand-kind pair; rows: (operator, left kind, right kind, entered, swapped).
+    """
+    import operator as op
+    from numpoly import dispatch
+    q0, q1 = numpoly.variable(2)
+    poly = numpoly.polynomial([q0 + 1, 2 * q1 + q0])
+    arr = numpy.array([3, 4])
+    poly_b = numpoly.polynomial([q1 - 2, q0 * q1])
+    kinds = {"poly": poly, "ndarray": arr, "scalar": 3, "list": [3, 4]}
+    log = []
+    originals = {}
+
+    def spy(label, fn):
+        def wrapped(*args, **kwargs):
+            first = args[0] if args else None
+            log.append((label, first))
+            return fn(*args, **kwargs)
+        wrapped.__wrapped_by_verif__ = True
+        return wrapped
+
+    saved_u = dict(dispatch.UFUNC_COLLECTION)
+    saved_f = dict(dispatch.FUNCTION_COLLECTION)
+    saved_attrs = {}
+    try:
+        by_impl = {}
+        for reg in (dispatch.UFUNC_COLLECTION, dispatch.FUNCTION_COLLECTION):
+            for key, impl in list(reg.items()):
+                w = by_impl.get(id(impl))
+                if w is None:
+                    w = by_impl[id(impl)] = spy(qualname(key), impl)
+                reg[key] = w
+        for name in dir(numpoly):
+            val = getattr(numpoly, name, None)
+            if callable(val) and id(val) in by_impl:
+                saved_attrs[name] = val
+                setattr(numpoly, name, by_impl[id(val)])
+        for name in ("poly_divide", "poly_remainder", "poly_divmod"):
+            saved_attrs[name] = getattr(numpoly, name)
+            setattr(numpoly, name, spy(f"numpoly.{name}", saved_attrs[name]))
+        binary = {"add": op.add, "sub": op.sub, "mul": op.mul, "truediv": op.truediv, "floordiv": op.floordiv,
+                  "mod": op.mod, "divmod": divmod, "pow": lambda a, b: a ** b, "eq": op.eq, "ne": op.ne, "lt": op.lt,
+                  "le": op.le, "gt": op.gt, "ge": op.ge, "matmul": op.matmul}
+        unary = {"neg": op.neg, "pos": op.pos, "abs": abs}
+        rows = []
+        pairs = [("poly", "poly"), ("poly", "ndarray"), ("ndarray", "poly"), ("poly", "scalar"), ("scalar", "poly"),
+                 ("poly", "list"), ("list", "poly")]
+        for name, f in binary.items():
+            for lk, rk in pairs:
+                if name == "pow" and rk == "poly":
+                    continue
+                a, b = kinds[lk], kinds[rk]
+                if lk == "poly" and rk == "poly":
+                    b = poly_b
+                if name == "pow":
+                    b = 3 if rk == "scalar" else numpy.array([2, 3]) if rk == "ndarray" else [2, 3]
+                del log[:]
+                try:
+                    f(a, b)
+                    status = "ok"
+                except Exception as err:  # noqa: BLE001
+                    status = type(err).__name__
+                if log:
+                    label, first = log[0]
+                    swapped = first is b
+                    rows.append((name, lk, rk, label, bool(swapped)))
+                else:
+                    rows.append((name, lk, rk, f"<none:{status}>", False))
+        for name, f in unary.items():
+            del log[:]
+            try:
+                f(poly)
+            except Exception:  # noqa: BLE001
+                pass
+            rows.append((name, "poly", "-", log[0][0] if log else "<none>", False))
+        return rows
+    finally:
+        dispatch.UFUNC_COLLECTION.clear()
+        dispatch.UFUNC_COLLECTION.update(saved_u)
+        dispatch.FUNCTION_COLLECTION.clear()
+        dispatch.FUNCTION_COLLECTION.update(saved_f)
+        for name, val in saved_attrs.items():
+            setattr(numpoly, name, val)
+
+
+def spelling_identity():
+    """for every registry entry: is `numpoly.<name>` the very object the registry forwards to?"""
+    from numpoly import dispatch
+    rows = []
+    for regname, reg in (("ufunc", dispatch.UFUNC_COLLECTION), ("function", dispatch.FUNCTION_COLLECTION)):
+        for key, impl in reg.items():
+            name = getattr(key, "__name__", "")
+            rows.append((regname, qualname(key), name, getattr(numpoly, name, None) is impl, isinstance(key, numpy.ufunc)))
+    return sorted(rows)
+
+
 def tables() -> dict:
     """All extracted facts as plain Python data (also used by the harness)."""
     from numpoly import dispatch, baseclass, option
@@ -175,6 +274,8 @@ def tables() -> dict:
         "numpyUfuncs": list(numpy_ufuncs()),
         "numpyOverridable": list(numpy_overridable()),
         "promotion": promotion_table(),
+        "operatorRouting": operator_routing(),
+        "spellingIdentity": spelling_identity(),
     }
     try:
         from numpoly.array_function import savetxt as _st
@@ -230,6 +331,13 @@ def numpyOverridable : List String := {lean_list([lean_str(x) for x in t['numpyO
 
 /-- numpy.result_type on the 14 numeric dtypes, rows/columns in the order of `DT.all` (numpy fact, trusted) -/
 def promotion : List (List DType) := {prom}
+
+/-- operator / reflected operator -> implementation entered first (spy probe on the live classes):
+(operator, left operand kind, right operand kind, registry key or numpoly function entered, arguments swapped) -/
+def operatorRouting : List (String × String × String × String × Bool) := {lean_list([f"({lean_str(a)}, {lean_str(b)}, {lean_str(c)}, {lean_str(d)}, {'true' if e else 'false'})" for a, b, c, d, e in t['operatorRouting']], per_line=1)}
+
+/-- (registry, numpy callable, attribute name, `numpoly.<name> is registry[callable]`, callable is a ufunc) -/
+def spellingIdentity : List (String × String × String × Bool × Bool) := {lean_list([f"({lean_str(a)}, {lean_str(b)}, {lean_str(c)}, {'true' if d else 'false'}, {'true' if e else 'false'})" for a, b, c, d, e in t['spellingIdentity']], per_line=1)}
 
 def headerTemplate : Option String := {('some ' + lean_str(t['headerTemplate'])) if t.get('headerTemplate') else 'none'}
 end Np.Generated
